@@ -14,7 +14,7 @@ HARNESSES = [
     dict(name="ow", pkg="./pkg/opdb/", test="TestVerifC12OW", timeout=600,
          files=[("pkg/opdb/zz_verif_c12_ow_test.go", _F + "c12_ow_test.go")]),
 ]
-VARIANTS = ["repaired", "d_async", "d_reserve", "defective"]
+VARIANTS = ["repaired", "d_delfail", "d_async", "d_reserve", "defective"]
 MODEL_NEEDS_IMPL = True
 RULE = ("one case = one whole history over <=6 sessions on a fresh component with a scheduler-controlled opdb fake: "
         "new (bring-up with allocator answers; pool/static/no address per family, bound/released-v4/approved/created flags "
@@ -100,7 +100,7 @@ def _history(rng, proto, nops, nsess):
             tick += 1
         elif r < 0.62 and live:
             i = rng.choice(live)
-            ops.append("rel:%d" % i)
+            ops.append(("relf:%d" if rng.random() < 0.06 else "rel:%d") % i)
             live.remove(i)
             store.discard(i)
             tick += 1
@@ -176,6 +176,10 @@ def _structured(proto):
         [n(0), "ck:0", "poison:0", "cks:0", "done:0", "crash:p"],
         [n(0), "ck:0", "done:0", "cksf:0", "crash:p", "cksf:0", "rel:0", "crash:p"],
         [n(0), "cksf:0", "crash:p", n(1)],
+        # release whose checkpoint Delete fails with a transient Store error
+        [n(0), "cks:0", "relf:0", "crash:p"],
+        [n(0), "ck:0", "done:0", "relf:0", "crash:e", n(1)],
+        [n(0), "ck:0", "relf:0", "done:0", "crash:p"],
         [n(0), "ck:0", "done:0", "crash:p", "poison:1", "rel:0", "done:1", "crash:p"],
         [n(0), "ck:0", "done:0", "crash:p", "ck2:0", "done:3", "done:2", "done:1", "crash:e"],
     ]
@@ -277,7 +281,7 @@ def _monitor(case, impl):
     released, live = set(), {}
     for o, s in zip(ops, segs):
         a = o.split(":")
-        if (a[0] == "rel" and s.startswith("rel")) or (a[0] == "ckrel" and s.startswith("ckrel")):
+        if (a[0] in ("rel", "relf") and s.startswith("rel")) or (a[0] == "ckrel" and s.startswith("ckrel")):
             released.add(int(a[1]))
             live.pop(int(a[1]), None)
         elif a[0] == "crash":
@@ -345,6 +349,8 @@ def signature(case, impl, models):
     proto = route(case)
     if proto == "ow":
         return None
+    if impl == models.get("d_delfail"):
+        return "delete-error-ignored/%s" % proto
     if impl == models.get("d_async"):
         v = _monitor(case, impl) or ""
         kind = "resurrect" if "released session" in v else "stale-image"
